@@ -10,6 +10,21 @@ Definition is_unreserved_code (c : N) : bool := is_unreserved c.
 (* uriLowercaseInplace / uriLowercaseMalloc *)
 Definition lowercase (t : text) : text := map (fun c => if in_range 65 90 c then c + 32 else c) t.
 
+(* uriLowercaseInplaceExceptPercentEncoding: the two characters after a '%' are left alone;
+   a '%' with fewer than two characters after it ends the walk *)
+Fixpoint lowercase_except_pct (t : text) : text :=
+  match t with
+  | [] => []
+  | c :: r =>
+    if in_range 65 90 c then (c + 32) :: lowercase_except_pct r
+    else if c =? 37 then
+      match r with
+      | a :: b :: r2 => c :: a :: b :: lowercase_except_pct r2
+      | _ => t
+      end
+    else c :: lowercase_except_pct r
+  end.
+
 (* uriContainsUppercaseLetters *)
 Definition contains_upper (t : text) : bool := existsb (fun c => in_range 65 90 c) t.
 
@@ -73,7 +88,7 @@ Definition normalize (mask : N) (u : uri) : uri :=
         | Some t => let t' := lowercase t in set_hostText (Some t') (set_ipFuture (Some t') u)
         | None =>
           match hostText u, ip4 u, ip6 u with
-          | Some t, None, None => set_hostText (Some (lowercase (fix_pct t))) u
+          | Some t, None, None => set_hostText (Some (lowercase_except_pct (fix_pct t))) u
           | _, _, _ => u
           end
         end
